@@ -279,6 +279,13 @@ func cmdCheck(args []string) int {
 				}
 				knownNative := len(o.Known) > 0 && len(o.Failed) == 0 && o.Panic == "" && !o.Timeout
 				ev.ReplaysRun++
+				if !reproduced && strings.HasPrefix(cd.id, "monitor.") {
+					// a sufficient condition (engine-side monitor) is not met, but the native
+					// confirmation (stress under the race detector) found nothing: not a violation
+					fmt.Printf("NOTE: %s: sufficient condition %q not met on this tree (model %v); native confirmation found no failure, so nothing is reported\n", h.Fn, cd.id, cd.model)
+					ev.MonitorNotes++
+					continue
+				}
 				if !reproduced {
 					if knownNative {
 						// the native run classifies it under an open finding
